@@ -141,6 +141,11 @@ def run_parallel(mod, cases, tier, workers, budget_s):
     """fork `workers` children over round-robin slices of `cases`; returns the
     aggregate and a list of reasons the run is inconclusive (dead/late workers)."""
     workdir = tempfile.mkdtemp(prefix="verif-%s-" % mod.PROP, dir=os.environ.get("VERIF_WORK") or None)
+    # a seeded shuffle first: a worker should see a mix of case kinds / enzymes / classes, so that state leaking from one
+    # kind of case into another inside a process has a chance to be observed (plain striding can align with the case order)
+    import random as _random
+    cases = list(cases)
+    _random.Random("shuffle/%s/%s" % (mod.PROP, os.environ.get("VERIF_SEED", "0"))).shuffle(cases)
     slices = [cases[i::workers] for i in range(workers)]
     slices = [s for s in slices if s]
     pids = {}
